@@ -25,12 +25,13 @@ def extract(ctx):
         ctx.notes.append("C17 facts NOT regenerated (extractor failed: %s); the committed Gen/C17.lean was used, cases amplified"
                          % " ".join(p.stdout.split())[:300])
         return
-    rows = [l.split("\t") for l in p.stdout.splitlines() if l.count("\t") >= 2]
-    ctx.coverage["locator_roots"] = [{"site": r[0], "root": r[1], "verdict": r[2], "why": (r[3] if len(r) > 3 else "")} for r in rows]
+    rows = [l.split("\t") for l in p.stdout.splitlines() if l.count("\t") >= 3]
+    ctx.coverage["source_facts"] = [{"group": r[0], "site": r[1], "what": r[2], "verdict": r[3], "why": (r[4] if len(r) > 4 else "").strip()}
+                                    for r in rows]
     for r in rows:
-        if r[2] != "configured":
-            ctx.notes.append("locator root %s at %s: %s (%s)" % (r[1], r[0], r[2], r[3] if len(r) > 3 else ""))
-    ctx.log("locator roots:", "; ".join("%s <- %s [%s]" % (r[0].split(":")[-1], r[1], r[2]) for r in rows))
+        if "unknown" in r[3] or "REFUTED" in r[3]:
+            ctx.notes.append("source fact (%s) %s at %s: %s (%s)" % (r[0], r[2], r[1], r[3], (r[4] if len(r) > 4 else "").strip()))
+    ctx.log("source facts:", "; ".join("%s %s [%s]" % (r[1].split(".")[-1], r[2], r[3]) for r in rows))
 
 
 def _s(h):
@@ -42,20 +43,22 @@ def decode(p):
     try:
         if f[0] == "P":
             return {"kind": "Clean(a), Join(a,b), Rel(a,b)", "a": _s(f[1]), "b": _s(f[2])}
+        f[0] = f[0].upper()
         if f[0] == "J":
             return {"kind": "import statement in a program parsed under a source name", "cwd": "B/" + _s(f[1]),
                     "locator_root": _s(f[3]), "root_is": "B/" + _s(f[4]), "source_name": _s(f[5]), "import_path": _s(f[6]),
                     "files (pos>inner = module importing inner)": _s(f[2]).split(",")}
-        if f[0] == "T":
-            d = {"kind": "cli/tool: CLIInterpreter{Dir}.CreateRuntimeProvider + entry file with the import statement",
-                 "cwd": "B/" + _s(f[1]), "configured_dir": _s(f[3]), "model_root": _s(f[4]), "root_is": "B/" + _s(f[5]),
+        if f[0] in "TU":
+            d = {"kind": ("cli/tool: CLIInterpreter{Dir}.CreateRuntimeProvider + entry file with the import statement" if f[0] == "T" else
+                          "cli/tool through ParseArgs: ecal run [-dir <dir>] -loglevel Error <entry file>"),
+                 "cwd": "B/" + _s(f[1]), "configured_dir": ("(no -dir)" if f[3] == "~" else _s(f[3])), "model_root": _s(f[4]), "root_is": "B/" + _s(f[5]),
                  "path_prefix": None if f[6] == "~" else _s(f[6]), "depth": int(f[7]),
                  "tree_also_has": "top/dlink -> nowhere (dangling), top/lnin -> root/sub, top/lnout -> ../abs"}
             if d["depth"]:
                 d["then_every_sequence_of_depth_elements_from"] = _s(f[8]).split(",")
             d["files"] = _s(f[2]).split(",")
             return d
-        d = {"kind": "Resolve" if f[0] == "R" else "import statement", "cwd": "B/" + _s(f[1]), "root": _s(f[3]),
+        d = {"kind": {"R": "Resolve", "I": "import statement", "N": "import statement, provider's default locator"}.get(f[0], f[0]), "cwd": "B/" + _s(f[1]), "root": _s(f[3]),
              "root_is": "B/" + _s(f[4]), "path_prefix": None if f[5] == "~" else _s(f[5]), "depth": int(f[6])}
         if d["depth"]:
             d["then_every_sequence_of_depth_elements_from"] = _s(f[7]).split(",")
@@ -71,11 +74,11 @@ def post(ctx, cases, gores, model):
     by_file = {}
     for i in sorted(cases, key=lambda i: (len(cases[i]), i)):
         g = gores.get(i, "")
-        if cases[i][0] in "RIJT" and any(x.startswith("O") for x in g.split(",")):
+        if cases[i][0] in KINDS and any(x.split("=")[-1].startswith("O") for x in g.split(",")):
             n += 1
             for x in g.split(","):
-                if x.startswith("O"):
-                    by_file[x] = by_file.get(x, 0) + 1
+                if x.split("=")[-1].startswith("O"):
+                    by_file[x.split("=")[-1]] = by_file.get(x.split("=")[-1], 0) + 1
             if n <= 2:
                 rp = checklib.write_replay(ctx, "input", {"payload": cases[i], "readable": decode(cases[i])},
                                            "no O<n> entry (resolve_confined)", g,
@@ -84,36 +87,63 @@ def post(ctx, cases, gores, model):
     ctx.coverage["outside_results"] = n
     if by_file:
         ctx.coverage["outside_by_file"] = by_file
-    ctx.coverage["paths_resolved"] = sum(len(g.split(",")) for i, g in gores.items() if cases.get(i, " ")[0] in "RIJT")
-    ctx.coverage["files_opened_inside"] = sum(sum(1 for x in g.split(",") if x.startswith("I"))
-                                              for i, g in gores.items() if cases.get(i, " ")[0] in "RIJT")
+    ctx.coverage["paths_resolved"] = sum(len(g.split(",")) for i, g in gores.items() if cases.get(i, " ")[0] in KINDS)
+    ctx.coverage["files_opened_inside"] = sum(sum(1 for x in g.split(",") if x.split("=")[-1].startswith("I"))
+                                              for i, g in gores.items() if cases.get(i, " ")[0] in KINDS)
+    ctx.coverage["opens_observed_at_the_hook"] = sum(sum(1 for x in g.split(",") if x[:1] not in "-?")
+                                                     for i, g in gores.items() if cases.get(i, " ")[0] in KINDS)
+    hookless = sum(1 for i in cases if cases[i][0] in "rijtun")
+    ctx.coverage["hook_present"] = hookless == 0
+    if hookless:
+        ctx.notes.append("the tree under test has no verifhook.At(\"c17.open\", …) point in FileImportLocator.Resolve: the opened paths are "
+                         "NOT observed in this run (content / error only)")
+    # obligations = property statements; regenerated source facts are listed apart
+    thms = ctx.coverage.get("theorems", [])
+    facts = [t for t in thms if t.startswith("Ecal.Props.C17Facts.")]
+    if ctx.coverage.get("obligations") == ctx.coverage.get("discharged"):
+        ctx.coverage["obligations"] = ctx.coverage["discharged"] = len(thms) - len(facts)
+    else:
+        ctx.coverage["obligations"] = len(thms) - len(facts)
+        ctx.coverage["discharged"] = max(0, ctx.coverage.get("discharged", 0) - len(facts))
+    ctx.coverage["source_fact_theorems"] = facts
 
+
+KINDS = "RIJTUNrijtun"
 
 SPEC = dict(
-    lean_modules=["Ecal.Props.C17"],
+    lean_modules=["Ecal.Props.C17", "Ecal.Props.C17Facts"],
     shards=16,
-    rule=("cases: (a) P lines = pairs of strings (all pairs (a,b) of strings of <=3 (quick; thorough: a <=4, b <=3) elements over "
-          "{a,b,.,..,''} joined by '/', plus random byte strings) through filepath.Clean/Join/Rel vs. the model's; "
-          "(b) R lines = FileImportLocator.Resolve in a real directory tree with sentinel files inside and outside the root "
-          "(sibling with the root's name as prefix, parent, grandparent, another absolute location), 18 root spellings "
-          "(absolute, relative, '.', '', '..', trailing slash, nested, with '..', repeated separators) x every path of "
-          "<=5 (quick) / <=6 (thorough) elements over {nm,.,..,'',/nm,a.b,'a b',..x,rootX,root} (one line = one prefix with "
-          "all 100 two-element continuations) plus random longer paths with arbitrary bytes; (c) I lines = the same through "
-          "`import \"<path>\" as x` in the interpreter. Compared: which file's content came back (inside / OUTSIDE) or error, "
-          "per path. (d) T lines = the real cli/tool: CLIInterpreter{Dir}.CreateRuntimeProvider then an entry file with the import "
-          "statement through LoadInitialFile, Dir in {existing, MISSING, a file, DANGLING symlink, symlink to a directory inside / "
-          "outside (modelled as its target), '', '.'} from working directories that hold sentinel files: with a missing / dangling "
-          "root every import must fail. (e) J lines = import statements in entry programs parsed under source NAMES {plain, with "
-          "directories, starting with '..', absolute, equal to files outside the root, ''} x import paths (plain, './', '../' "
-          "prefixed, leading to module files that import again) x 18 roots. A regenerated source fact (where every "
-          "FileImportLocator literal's Root comes from; three-valued) is a Lean obligation; a root that is not established "
-          "amplifies (d) and (e). Non-trivial = a P line, or another line on which at least one path opens an existing file."),
+    rule=("cases: (a) P lines = pairs (a,b) of strings (a <=4, b <=3 elements over {a,b,.,..,''} joined by '/', all pairs; plus random "
+          "byte strings) through filepath.Clean/Join/Rel vs. the model's. (b) R lines = FileImportLocator.Resolve (one locator per line) "
+          "in a real directory tree with sentinel files inside and outside the root (sibling with the root's name as prefix, parent, "
+          "grandparent, another absolute location = $HOME), 29 listed root spellings (absolute, relative, '.', '', '..', trailing slash, "
+          "nested, with '..', repeated separators, names with blank / dot / leading dots, roots ABOVE the tree: '/', parent, "
+          "grandparent) + random spellings located by the kernel x every path of <=5 elements over {nm,.,..,'',/nm,a.b,'a b',..x,"
+          "rootX,root} (one line = one prefix with all 100 two-element continuations; length 6 for all roots in the thorough tier and "
+          "for one seed-rotated root in the quick tier), every path of <=3 elements over that alphabet + {$u.. ${u}.. %2e%2e ..%2f ~ "
+          "..\\ ... '.. ' ' ..' ..NUL} (names that a rewrite after the test would turn into '..'), random longer paths with arbitrary "
+          "bytes. (c) I lines = the same through `import \"<path>\" as x` in the interpreter (paths a literal cannot carry go through "
+          "an interpolated value); N = with the provider's default locator. (d) T / U lines = the real cli/tool: CLIInterpreter{Dir}."
+          "CreateRuntimeProvider resp. ParseArgs over `ecal run [-dir d] <entry>`, then the entry file through LoadInitialFile; Dir in "
+          "{existing, MISSING, a file, DANGLING symlink, symlink to a directory (modelled as its target), '', '.', none}. (e) J lines "
+          "= import statements in programs parsed under source NAMES {plain, with directories, starting with '..', absolute, equal "
+          "to files outside the root, ''} x import paths (plain, './', '../' prefixed, leading to module files that import again). "
+          "Compared per path, exactly: the strings that reached the open (verifhook point c17.open directly before ReadFile; B-"
+          "independent spelling) and what came back: rej / relerr (no open), E, E+ (error together with content), I<n> / O<n> (content "
+          "of file n inside / OUTSIDE the root; any O is a violation whatever the model says). Regenerated three-valued source facts "
+          "(locator roots; calls reachable from Resolve; receiver and argument of Resolve in importRuntime.Eval) are Lean obligations "
+          "of their own; one that is not established amplifies (d), (e) and the extended alphabet. Non-trivial = a P line, or another "
+          "line on which at least one path opens an existing file."),
     exhaustive="all element sequences up to the stated length for every listed root spelling; all pairs for the primitives",
     trusted_base=[
         "the kernel's path walk agrees with the lexical walk on cleaned paths in a tree without symbolic links (the harness's tree has none)",
         "ioutil.ReadFile opens exactly the string it is given",
-        "go/ast extractor of the locator-root fact (go/cmd/harness/c17tool.go): table of (value, error) library functions; "
-        "follows local definitions and same-package calls; anything else is reported as unknown, never as a negative",
+        "go/ast extractors of the source facts (go/cmd/harness/c17tool.go, c17tool2.go): tables of (value, error) / string-rewriting / "
+        "file-system library functions, calls qualified through the files' import tables (no go/types: the source importer does not "
+        "resolve modules offline); they follow local definitions, writes to struct fields and same-package calls; the polarity of a "
+        "guard is not analysed; anything else is reported as unknown, never as a negative",
+        "NOT CHECKED: FileImportLocator.Resolve is stateless (one locator is reused within a line and package state would show up "
+        "only through the order of the cases of a shard)",
     ],
     assumptions=["no symbolic links below or above the root (the property is lexical)",
                  "Unix path semantics (separator '/', no volume names)"],
@@ -123,14 +153,20 @@ SPEC = dict(
 )
 
 META = dict(
-    technique=("Lean 4 theorems over an element-list model of filepath.Clean/Join/Rel and of FileImportLocator.Resolve + "
-               "differential correspondence with Go's filepath and with Resolve / import in a real directory tree"),
-    level_text=("Proof: for all byte strings root and p, if Resolve opens q then q is cleaned, has the cleaned root's elements as a "
-                "prefix followed only by ordinary names, and the node it denotes from any working directory is the root's node "
-                "extended downwards; otherwise nothing is opened. Model tied to Go's filepath.Clean/Join/Rel and to Resolve by an "
-                "exhaustive-for-short / random-for-long differential run in a real directory tree."),
-    level_note=("Trusted: Lean kernel + propext/Classical.choice/Quot.sound; the correspondence harness; lexical property "
-                "(symbolic links out of scope); Unix separators."),
+    technique=("Lean 4 theorems over an element-list model of filepath.Clean/Join/Rel, of FileImportLocator.Resolve and of the import "
+               "statement (instantiated with source facts regenerated on every run) + differential correspondence with Go's filepath "
+               "and with Resolve / import / the command line tool in a real directory tree, observing the open itself"),
+    level_text=("Proof about the model: for all byte strings root and p, if the MODEL of Resolve opens q then q is cleaned, has the "
+                "cleaned root's elements as a prefix followed only by ordinary names, and the node it denotes from any working "
+                "directory is the root's node extended downwards; otherwise nothing is opened; nested import statements open only "
+                "such q whatever the source names are (given the regenerated facts about rt_general.go). Model tied to the code by "
+                "an exhaustive-for-short / random-for-long differential run that compares the string reaching ReadFile and the "
+                "returned content / error with the model's prediction, per path."),
+    level_note=("Trusted: Lean kernel + propext/Classical.choice/Quot.sound; the correspondence harness and the verifhook point "
+                "c17.open (placed directly before ReadFile; it reports the variable, the extracted fact says the call's argument is "
+                "that variable); the kernel's path walk = the lexical walk on cleaned paths without symbolic links; ReadFile opens "
+                "its argument; the go/ast fact extractors. Not checked: statelessness of Resolve. Lexical property (symbolic links "
+                "out of scope); Unix separators."),
 )
 
 
